@@ -107,6 +107,25 @@ theorem removed_not_published (s : KeyObjectSet) (n : Nat) (_h : (keys s.publish
     rw [keys_filter s.published (fun k => decide (k ≠ n)), List.mem_filter]
     simp
 
+/-! ### The trust anchor's own certificates (`TrustAnchorObjects::add_issued` / `revoke_issued`) -/
+
+theorem ta_replace_revokes_previous (o : TaObjects) (now key : Nat) (c prev : PubObj)
+    (h : get? o.issued key = some prev) (hexp : prev.expires > now) :
+    prev.revoke ∈ (o.addIssued now key c).revocations ∧ get? (o.addIssued now key c).issued key = some c := by
+  simp only [TaObjects.addIssued, h]
+  refine ⟨?_, ?_⟩
+  · exact List.mem_filter.mpr ⟨List.mem_append.mpr (Or.inr (by simp)), by simpa [PubObj.revoke] using hexp⟩
+  · rw [get?_put]; simp
+
+theorem ta_revoke_effective (o : TaObjects) (now key : Nat) (prev : PubObj)
+    (h : get? o.issued key = some prev) (hexp : prev.expires > now) :
+    (o.revokeIssued now key).2 = true ∧ prev.revoke ∈ (o.revokeIssued now key).1.revocations ∧
+    get? (o.revokeIssued now key).1.issued key = none := by
+  simp only [TaObjects.revokeIssued, h]
+  refine ⟨trivial, ?_, ?_⟩
+  · exact List.mem_filter.mpr ⟨List.mem_append.mpr (Or.inr (by simp)), by simpa [PubObj.revoke] using hexp⟩
+  · rw [get?_erase]; simp
+
 /-! ### Revocation requests -/
 
 /-- Full statement (false of the code, finding F-C03-1): a revocation request that is answered
